@@ -266,6 +266,34 @@ def rule_kb7(repo, col):
                % (foreign[0][:80] if foreign else ""), construct="from_partial: atom filtered by the value of its weight", function="CNF.from_partial")
 
 
+def rule_kb8(repo, col):
+    """Border.__init__: the border's working formula is a private, COMPLETE copy of the CNF - deepcopy(cnf) / copy.deepcopy / cnf.copy() - so it carries the constraints too
+    (the annotated-disjunction constraints normalise the weights in extract_weights); a hand-built copy must copy them explicitly"""
+    c = repo.cls("problog.kbest", "Border")
+    f = c.methods.get("__init__")
+    if f is None:
+        raise AnalysisError("Border.__init__ missing")
+    m = f.module
+    src = f.params[1]
+    asg = [st for st in walk_no_nested(f.node) if isinstance(st, ast.Assign) and norm(st.targets[0]) == "self.wcnf"]
+    if len(asg) != 1:
+        raise AnalysisError("Border.__init__: working formula not found")
+    v = asg[0].value
+    full = isinstance(v, ast.Call) and ((dotted(v.func) in ("deepcopy", "copy.deepcopy") and v.args and norm(v.args[0]) == src) or norm(v.func) in ("%s.copy" % src, "%s.__deepcopy__" % src))
+    ok = full
+    why = "deep copy of the CNF"
+    if not full:
+        # a hand-built copy: the constraints must be carried over explicitly
+        carried = any(isinstance(st, ast.Assign) and "self.wcnf._constraints" in norm(st.targets[0]) for st in walk_no_nested(f.node)) or \
+            any(isinstance(x, ast.Call) and norm(x.func) == "self.wcnf.add_constraint" and src in norm(x) and "TrueConstraint" not in norm(x) for x in ast.walk(f.node))
+        ok = carried
+        why = "built as %s" % norm(v)[:50]
+    col.decide("KB8", m, asg[0], ok, "the border works on a complete private copy of the CNF (%s)" % why,
+               "Border.__init__ builds its working formula as %s without the constraints of the CNF: the annotated-disjunction constraints are what makes extract_weights normalise the head "
+               "weights and add the 'no head chosen' atom - without them every proof probability and the MaxSAT objective are wrong for programs with a multi-head annotated disjunction "
+               "(0.3::a; 0.5::b. ... k-best returns 0.56 for an exact 0.62)" % norm(v)[:60], construct="Border.__init__: working copy without the constraints", function="Border.__init__")
+
+
 def run(repo, col):
     col.rule("KB1", "polarity of the borders")
     col.rule("KB2", "probability of a proof: literal / weight sign pairing")
@@ -278,3 +306,5 @@ def run(repo, col):
     rule_kb6(repo, col)
     col.rule("KB7", "model -> proof translation filters by presence in the weight table only")
     rule_kb7(repo, col)
+    col.rule("KB8", "the border's working formula carries the constraints of the CNF")
+    rule_kb8(repo, col)
